@@ -32,6 +32,8 @@ RULE = (
     "Hypothesis: C11's generated inputs + drawn fault + drawn schedule. Oracle: SystemExit(code!=0) or exception; a normal "
     "return or a hang is a violation. Non-trivial = >=2 workers with the faulty one not first, or a death between two "
     "delivered results. Distinct by SHA-1 of the case."
+    " Later additions: realign to standard output, 90 KB of results per worker with one worker failing while "
+    "the other is silent (pipe-capacity model at interpreter exit)."
 )
 ASSUMPTIONS = ["a death after the sentinel has been delivered is not a fault point of the batch"]
 
